@@ -527,17 +527,19 @@ func (p Parameters) MaxBit(levelQ, levelP int) (c int) {
 // If levelP > 0 or Base2Decomposition == 0, then returns 1 for all qi.
 func (p Parameters) BaseTwoDecompositionVectorSize(levelQ, levelP, Base2Decomposition int) (base []int) {
 
-	logqi := p.LogQi()
+	qi := p.Q()
 
-	base = make([]int, len(logqi))
+	base = make([]int, len(qi))
 
 	if Base2Decomposition == 0 || levelP > 0 {
 		for i := range base {
 			base[i] = 1
 		}
 	} else {
+		// The digits must cover every residue in [0, qi-1]: a prime slightly
+		// above a power of two needs one more bit than its rounded log2.
 		for i := range base {
-			base[i] = (logqi[i] + Base2Decomposition - 1) / Base2Decomposition
+			base[i] = (bits.Len64(qi[i]-1) + Base2Decomposition - 1) / Base2Decomposition
 		}
 	}
 
